@@ -962,6 +962,17 @@ pub fn gen_conv(g: &mut G<'_>, o: &ConvOpts) -> Conversation {
         cmds.push(Cmd::Quit);
     }
     let mut c = Conversation::new(cmds, actions);
+    // what follows the handshake must not depend on which legal handshake response it was
+    match g.weighted(&[6, 1, 1]) {
+        0 => {}
+        1 => {
+            c.hs.kind = HsKind::V320 { caps: (g.raw() as u16) & !((CAP_PROTOCOL_41 | CAP_SSL) as u16), max_packet: g.raw() & 0xff_ffff, user: b"verif".to_vec(), tail: vec![0] };
+        }
+        _ => {
+            c.hs.kind = HsKind::V41 { caps: (g.raw() | CAP_PROTOCOL_41) & !CAP_SSL, max_packet: g.raw(), charset: g.byte(), user: b"verif".to_vec(), tail: vec![0] };
+            c.hs.reserved = g.bytes(23);
+        }
+    }
     if o.default_init_sometimes && g.chance(1, 5) {
         c.default_init = true;
         // the scripted init actions are not consumed by a shim that keeps the default on_init
